@@ -292,4 +292,26 @@ def sepConv1dInfo (p : Padding) (n k s d ci dm co : Nat) : LayerInfo :=
   { inShape := [n, ci], outShape := [convOutLen p n k s d, co], wShape := [k, ci, dm],
     poolSize := none }
 
+
+/-! ## which operand of a multi-input (merge) layer `generate_layer_data_type_map` hands to
+    `get_operation_count` (strengthening round 4) -/
+
+/-- the loop `maxsize = -1; for shape in inputs: if size > maxsize: take it` with a generic size `key`:
+    the operand with the strictly largest key, the FIRST among ties.  The code's key is
+    `np.prod(shape[1:])` = `prodL` (shapes here are without the batch entry). -/
+def pickLargestByAux (key : List Nat → Nat) (best : List Nat) : List (List Nat) → List Nat
+  | [] => best
+  | s :: rest => if key s > key best then pickLargestByAux key s rest else pickLargestByAux key best rest
+def pickLargestBy (key : List Nat → Nat) : List (List Nat) → List Nat
+  | [] => []
+  | s :: rest => pickLargestByAux key s rest
+/-- the selection of the real code -/
+def pickLargest : List (List Nat) → List Nat := pickLargestBy prodL
+/-- numpy broadcasting of equal-rank shapes: every dimension of `s` equals that of `full` or is 1 -/
+def bcastTo : List Nat → List Nat → Prop
+  | [], [] => True
+  | a :: s, b :: full => (a = b ∨ a = 1) ∧ bcastTo s full
+  | _, _ => False
+
+
 end QKV.C19
